@@ -49,7 +49,37 @@ let pagescript (a : string list) : string =
       | _ -> failwith ("bad page op " ^ o)) ops)
   | _ -> failwith "args"
 
+let ekind_string k = match k with
+  | KOk -> "ok" | KInvalidOp -> "InvalidOp" | KInvalidPageID -> "InvalidPageID" | KInvalidParam -> "InvalidParam"
+  | KTxCommitFail -> "TxCommitFail" | KTxRollbackFail -> "TxRollbackFail" | KTxFinished -> "TxFinished" | KTxReadOnly -> "TxReadOnly"
+  | KQueueClosed -> "QueueClosed" | KReaderClosed -> "ReaderClosed" | KWriterClosed -> "WriterClosed"
+  | KACKEmptyQueue -> "ACKEmptyQueue" | KACKTooMany -> "ACKTooMany" | KInactiveTx -> "InactiveTx" | KUnexpectedActiveTx -> "UnexpectedActiveTx"
+let txstate_of s = match s with "rw" -> TxRW | "ro" -> TxRO | "done-rw" -> TxDoneRW | "done-ro" -> TxDoneRO | _ -> failwith ("txstate " ^ s)
+let txmethod_of s = match s with
+  | "commit" -> MCommit | "rollback" -> MRollback | "close" -> MClose | "alloc" -> MAlloc | "allocn" -> MAllocN
+  | "flush" -> MFlush | "checkpoint" -> MCheckpoint | "page" -> MPage | "page-oob" -> MPageOutOfBounds
+  | "page-freed" -> MPageFreed | "rootpage" -> MRootPage | _ -> failwith ("txmethod " ^ s)
+let pstate_of s = match s with "new" -> PNew | "new-dirty" -> PNewDirty | "clean" -> PClean | "dirty" -> PDirty
+  | "flushed" -> PFlushed | "freed" -> PFreed | _ -> failwith ("pstate " ^ s)
+let pmethod_of s = match s with "bytes" -> PBytes | "load" -> PLoad | "setbytes" -> PSetBytes | "setbytes-oversize" -> PSetBytesOversize
+  | "markdirty" -> PMarkDirty | "free" -> PFree | "flush" -> PFlush | _ -> failwith ("pmethod " ^ s)
+
 let register (reg : string -> (string list -> string) -> unit) =
+  reg "api_tx" (fun a -> match a with [s; m] -> ekind_string (tx_result (txstate_of s) (txmethod_of m)) | _ -> failwith "args");
+  reg "api_page" (fun a -> match a with [ts; p; m] -> ekind_string (page_result (txstate_of ts) (pstate_of p) (pmethod_of m)) | _ -> failwith "args");
+  reg "api_writer" (fun a -> match a with [s; _] -> ekind_string (writer_result (if s = "open" then WOpen else WClosed) QWrite) | _ -> failwith "args");
+  reg "api_reader" (fun a -> match a with
+    | [s; m] -> ekind_string (reader_result (match s with "idle" -> RIdle | "intx" -> RInTx | _ -> RClosed)
+                                (match m with "begin" -> QBegin | "done" -> QDone | "read" -> QRead | "next" -> QRNext | _ -> QAvailable))
+    | _ -> failwith "args");
+  reg "api_ack" (fun a -> match a with
+    | [c; e; t; z] -> ekind_string (ack_result (tok_bool c) (tok_bool e) (tok_bool t) (tok_bool z)) | _ -> failwith "args");
+  (* openstep <held> <opts_valid> <os_ok> <init_ok> -> result held' *)
+  reg "openstep" (fun a -> match a with
+    | [h; v; o; i] ->
+      let (r, h') = open_step (tok_bool h) { opts_valid = tok_bool v; os_open_ok = tok_bool o; init_ok = tok_bool i } in
+      (match r with OpenOk -> "ok" | OpenErrLock -> "lock" | OpenErrOther -> "error") ^ " " ^ bool_tok h'
+    | _ -> failwith "args");
   reg "pagescript" pagescript;
   (* lockscript s p r op... : per op the new state, or B when the op would block (state unchanged) *)
   reg "lockscript" (fun a -> match a with
